@@ -236,8 +236,8 @@ def fam_other(meta_settings, cats=((PKG_FULL,),)):
 
 
 def fam_repo_full(cats=((PKG_FULL,),)):
-    """Literally every subset of the repository-level components (2^17)."""
-    return [('repo', shape(cats, r)) for r in powerset(REPO)]
+    """Every subset of the 16 repository-level components other than topfiles (2^16), topfiles present."""
+    return [('repo', shape(cats, r + ('topfiles',))) for r in powerset([x for x in REPO if x != 'topfiles'])]
 
 
 def fam_odd(repo_settings):
@@ -274,8 +274,9 @@ def shapes(tier):
          meta  : all 128 subsets of the 7 metadata components x other components {none, all}  -> 256
          other : all 1024 subsets of the 10 other components x metadata {none, all}          -> 2048
          odd   : look-alike extras
-       thorough: pkg on 1..4 x 1..4 with the varying package at every position of the 4x4 grid (first/last
-         elsewhere), alike on 0..4 x 0..4, and every one of the 2^17 repository-level subsets."""
+       thorough: the quick families plus pkg on 1..4 x 1..4 with the varying package at every position of the
+         4x4 grid (first/last elsewhere), alike on 0..4 x 0..4, and every one of the 2^16 subsets of the
+         repository-level components other than topfiles."""
     if tier == 'quick':
         fams = (fam_packages([(1, 1), (1, 2), (2, 1), (2, 2)], [NONE, ALL])
                 + fam_alike(2, 2, [NONE, ALL])
@@ -286,6 +287,7 @@ def shapes(tier):
         fams = (fam_packages([l for l in lay if l != (4, 4)], [NONE, ALL], positions='corners')
                 + fam_packages([(4, 4)], [NONE, ALL], positions='all')
                 + fam_alike(4, 4, [NONE, ALL])
+                + fam_meta([(), OTHER]) + fam_other([(), META])
                 + fam_repo_full()
                 + fam_odd([NONE, ALL]))
     return dedup(fams)
